@@ -264,6 +264,19 @@ func genCloseUnderLoad(g *vh.Gen) (string, string) {
 func gen(g *vh.Gen) {
 	// the assembled system (server.FullAssembly + Services.Start), one child process per case
 	asmsys.Gen(g, "asm15")
+	// the monitor through the real HTTP handlers and a real WebSocket client: one event per WebSocket message
+	for _, c := range [][6]string{{"0", "2", "-", "0", "150", "3"}, {"60", "2", "-", "60", "10", "0"}, {"150", "2", "-", "150", "120", "5"},
+		{"5", "1", "-", "8", "130", "2"}, {"100", "1", "-", "100", "3", "0"}, {"30", "2", vh.HS("a"), "40", "140", "4"}} {
+		g.Emit("ws", c[0], c[1], c[2], c[3], c[4], c[5])
+	}
+	for i := 0; i < g.N(10, 300); i++ {
+		h := []int{0, 3, 30, 52, 80, 150}[g.Intn(6)]
+		filter := "-"
+		if g.Chance(0.3) {
+			filter = vh.HS(g.Pick("a", "b"))
+		}
+		g.Emit("ws", fmt.Sprint(h), g.Pick("1", "2", "2"), filter, fmt.Sprint(g.Intn(160)), fmt.Sprint(3+g.Intn(148)), fmt.Sprint(g.Intn(6)))
+	}
 	for i := 0; i < g.N(6, 200); i++ {
 		g.Emit("fedstop", fmt.Sprint([]int{2, 10, 60, 200}[g.Intn(4)]))
 	}
